@@ -30,6 +30,9 @@ For each rule of ``sanitize_registry[FP]`` that the property names
      the removed text: an index into ``source.string`` is never derived from the
      length of the *restored* text (which contains the group the sanitiser
      removed, so it is longer than the first line of a sanitised source).
+ R7  the test whether the re-assembled first line is continued (``.endswith('&')``)
+     is made on stripped text, or on a regex group that cannot end in blanks
+     (regex AST): blanks after the ampersand must not lose the continuation lines.
 Not decided: correctness of the text surgery inside the re-insertion callbacks.
 """
 import ast
@@ -119,6 +122,110 @@ def _anchored(alt):
             continue
         return False
     return False
+
+
+def _can_end_blank(items):
+    """can the text matched by this sequence of regex items end in a blank?  (line-end anchors are skipped)"""
+    items = list(items)
+    while items and str(items[-1][0]) == 'AT':
+        items.pop()
+    if not items:
+        return False
+    op, arg = items[-1]
+    op = str(op)
+    if op in ('MAX_REPEAT', 'MIN_REPEAT', 'POSSESSIVE_REPEAT'):
+        lo, _hi, sub = arg
+        return _can_end_blank(sub) or (lo == 0 and _can_end_blank(items[:-1]))
+    if op == 'SUBPATTERN':
+        return _can_end_blank(arg[3]) or (not list(arg[3]) and _can_end_blank(items[:-1]))
+    if op == 'BRANCH':
+        return any(_can_end_blank(alt) for alt in arg[1])
+    if op == 'ANY':
+        return True
+    if op == 'LITERAL':
+        return chr(arg) in ' \t'
+    if op == 'NOT_LITERAL':
+        return chr(arg) not in ' \t' or True
+    if op == 'IN':
+        neg = any(str(o) == 'NEGATE' for o, _ in arg)
+        hit = False
+        for o, v in arg:
+            o = str(o)
+            if o == 'LITERAL' and chr(v) in ' \t':
+                hit = True
+            elif o == 'RANGE' and v[0] <= ord(' ') <= v[1]:
+                hit = True
+            elif o == 'CATEGORY' and str(v) in ('CATEGORY_SPACE',):
+                hit = True
+            elif o == 'CATEGORY' and str(v) in ('CATEGORY_NOT_WORD', 'CATEGORY_NOT_DIGIT'):
+                hit = True
+        return hit != neg
+    if op in ('ASSERT', 'ASSERT_NOT', 'GROUPREF'):
+        raise AnalysisError(f'regex item {op} at the end of a group: cannot decide whether the group may end in a blank')
+    raise AnalysisError(f'regex item {op}: cannot decide whether the group may end in a blank')
+
+
+def continued_line_tests(ctx, rid, m, mod, reg):
+    """In a reinsert_* callback the first line of the statement is re-assembled from the match groups and the continuation
+    lines are appended when that line ends in `&`.  A group that can end in blanks must be stripped before the test --
+    otherwise `... , &   ` (blanks after the ampersand) is taken as not continued and the node keeps a multi-line span with
+    one line of text."""
+    n = 0
+    by_cb = {}
+    for name, (call, kw) in reg.items():
+        cb = kw.get('postprocess')
+        if isinstance(cb, ast.Name):
+            by_cb.setdefault(cb.id, []).append((name, call, kw))
+    for fname, f in mod.functions.items():
+        if not fname.startswith('reinsert_'):
+            continue
+        for c in ast.walk(f.node):
+            if not (isinstance(c, ast.Call) and isinstance(c.func, ast.Attribute) and c.func.attr == 'endswith' and c.args
+                    and isinstance(c.args[0], ast.Constant) and c.args[0].value == '&'):
+                continue
+            n += 1
+            recv = c.func.value
+            inst = f'{fname}:{ast.unparse(c)[:60]}'
+            where = f'{mod.relpath}:{c.lineno}'
+            if isinstance(recv, ast.Call) and isinstance(recv.func, ast.Attribute) and recv.func.attr in ('rstrip', 'strip') and not recv.args:
+                ctx.judge(rid, inst, facts={'stripped': True})
+                continue
+            if not (isinstance(recv, ast.Subscript) and isinstance(recv.slice, ast.Constant) and isinstance(recv.slice.value, str)):
+                raise AnalysisError(f'{fname} ({where}): receiver of .endswith("&") is neither stripped nor a match group')
+            g = recv.slice.value
+            rules = by_cb.get(fname)
+            if not rules:
+                raise AnalysisError(f'{fname}: no sanitising rule names it as postprocess callback')
+            for name, call, kw in rules:
+                kind, pat, flags = _pattern(m, mod, kw.get('match') or call.args[0])
+                if kind != 'regex':
+                    raise AnalysisError(f'rule {name}: not a regular expression')
+                parsed = sre_parse.parse(pat, flags)
+                gid = parsed.state.groupdict.get(g)
+                sub = None
+                stack = [parsed]
+                while stack:
+                    seq = stack.pop()
+                    for op, arg in seq:
+                        o = str(op)
+                        if o == 'SUBPATTERN':
+                            if arg[0] == gid:
+                                sub = arg[3]
+                            stack.append(arg[3])
+                        elif o in ('MAX_REPEAT', 'MIN_REPEAT'):
+                            stack.append(arg[2])
+                        elif o == 'BRANCH':
+                            stack.extend(arg[1])
+                if gid is None or sub is None:
+                    raise AnalysisError(f'rule {name}: group {g} not found in the pattern')
+                if _can_end_blank(sub):
+                    ctx.violation(rid, f'{fname}:continuation-test-sees-blanks', where,
+                                  f"`{ast.unparse(c)}` tests the raw group `{g}` of rule {name}, which can end in blanks: for `..., &   ` "
+                                  f'(blanks after the ampersand) the continuation lines are not appended, the statement keeps its multi-line span '
+                                  f'but only the text of its first line', instance=inst)
+                else:
+                    ctx.judge(rid, inst, facts={'group_cannot_end_blank': g})
+    ctx.floor(rid, 'continued-line tests in reinsert_* callbacks', n, 2)
 
 
 def run(ctx):
@@ -301,9 +408,13 @@ def run_r56(ctx, m, mod, reg):
                 else:
                     ctx.judge('R6', inst)
     ctx.floor('R6', 'slices of the stored source in reinsert_* callbacks', n6, 2)
+    ctx.rule('R7', 'reinsert_* callbacks: the test for a continued first line strips the group (or the group cannot end in blanks)')
+    continued_line_tests(ctx, 'R7', m, mod, reg)
 
 
 MUTANTS = [
+    Mutant('continuation-test-on-raw-group', FILE, "                if match['post'].rstrip().endswith('&'):", "                if match['post'].endswith('&'):",
+           expect=('R7', 'continuation-test-sees-blanks')),
     Mutant('protected-directive-column-one', FILE, "r'(?P<pp>^\\s*#.*__(?:FILE|FILENAME|DATE|VERSION)__)|'", "r'(?P<pp>^#.*__(?:FILE|FILENAME|DATE|VERSION)__)|'",
            expect=('R5', 'no-leading-blanks')),
     Mutant('continuation-offset-from-restored-text', FILE,
